@@ -10,6 +10,8 @@ import (
 	"flag"
 	"fmt"
 	"net"
+	osexec "os/exec"
+	"runtime"
 	"strconv"
 	"strings"
 
@@ -444,7 +446,7 @@ func churn(n int) {
 			ll.PushBack(bytes.Repeat([]byte{'y'}, size))
 		}
 		_, _ = ll.Discard(40)
-		ll.Release()
+		ll.Reset()
 		for _, idx := range []uint32{77777, 4242, 16777000} {
 			_ = socket.VerifIP6ZoneToString(idx + uint32(round))
 		}
@@ -1128,7 +1130,164 @@ func generate(seed uint64, tier string) {
 		w.Hist("lsa-" + cls)
 	}
 	w.End()
+	// 10. values stay what they were while the pools are churned
+	genStability(r, mult)
+	// 11. zone conversions among interfaces with digit-leading names (private network namespace)
+	netnsPhase(r, mult)
 }
+
+// stability: values handed out earlier are re-read after pool churn and further conversions
+func genStability(r *tr.Rand, mult int) {
+	ll := net.ParseIP("fe80::fc:ff:fe00:1")
+	zids := []uint32{0, 9999, 1234, 7, 65535, 100000, 16777214, 16777215, 1 << 31, 1<<32 - 1, 42}
+	for _, i := range ifaces {
+		zids = append(zids, uint32(i.Index))
+	}
+	for c := 0; c < 6*mult; c++ {
+		newCase("stab", "addr-stability")
+		n := 0
+		keepOne := func() {
+			switch k := r.Intn(10); {
+			case k < 6:
+				z := zids[r.Intn(len(zids))]
+				if r.Chance(40) {
+					z = uint32(1 + r.Intn(big-1))
+				}
+				exec("keep", []string{[]string{"tcp", "udp"}[r.Intn(2)], "sa6", tr.I(randPort(r)), tr.U64(uint64(z)), tr.X(ll)})
+				w.Hist("keep-sa6")
+			case k < 7:
+				exec("keep", []string{"tcp", "sa4", tr.I(randPort(r)), tr.X(r.Bytes(4))})
+				w.Hist("keep-sa4")
+			case k < 8:
+				exec("keep", []string{"tcp", "unix", tr.X(randPath(r))})
+				w.Hist("keep-unix")
+			default:
+				exec("keepz", []string{tr.U64(uint64(zids[r.Intn(len(zids))]))})
+				w.Hist("keepz")
+			}
+			n++
+		}
+		for round := 0; round < 12; round++ {
+			for k := 1 + r.Intn(4); k > 0; k-- {
+				keepOne()
+			}
+			if r.Chance(70) {
+				exec("churn", []string{tr.I(1 + r.Intn(3))})
+			}
+			// re-read: the newest ones and a few old ones
+			for k := 0; k < 4 && k < n; k++ {
+				exec("recheck", []string{tr.I(n - 1 - k)})
+			}
+			for k := 0; k < 3; k++ {
+				exec("recheck", []string{tr.I(r.Intn(n))})
+			}
+		}
+		exec("churn", []string{"4"})
+		for i := 0; i < n; i++ {
+			exec("recheck", []string{tr.I(i)})
+		}
+		w.End()
+	}
+}
+
+// netnsPhase runs the zone conversions once more inside a PRIVATE network namespace that
+// contains interfaces whose names start with (or consist of) digits - names the sandbox
+// itself does not have.  The goroutine is locked to an OS thread that is moved into a new
+// namespace (unshare(CLONE_NEWNET)); the `ip` commands it spawns and the netlink sockets
+// package net opens on this thread see that namespace only.  The thread is never unlocked,
+// so it dies with the goroutine and no other goroutine ever runs in the namespace.
+// Everything is best effort: without the privilege or the `ip` tool the phase is skipped
+// (histogram key netns-skipped), never failed.
+func netnsPhase(r *tr.Rand, mult int) {
+	withNetns(func() {
+		w.Hist("netns-run")
+		ll := net.ParseIP("fe80::1234")
+		zones := zonePool()
+		for _, i := range ifaces {
+			// the decimal form of every index, and digit strings around the digit-leading names
+			zones = append(zones, strconv.Itoa(i.Index), i.Name+"0", "0"+i.Name)
+		}
+		zones = append(zones, "6", "6to", "6to4x", "12", "12a", "12abc", "8", "41", "39")
+		newCase("ns", "netns-zones")
+		exec("netns", []string{"digit-leading-interface-names"})
+		for _, z := range zones {
+			zc, _ := zoneClass(z)
+			exec("z2i", []string{tr.X([]byte(z))})
+			for _, k := range []string{"tcp", "udp", "ip"} {
+				exec("rt", []string{k, ipArg(ll), tr.I(r.Pick(boundaryPorts)), tr.X([]byte(z))})
+			}
+			exec("rt", []string{"udp", ipArg(net.IP{10, 0, 0, 1}), "53", tr.X([]byte(z))})
+			exec("rt", []string{"tcp", "nil", "53", tr.X([]byte(z))})
+			exec("ip2sa", []string{ipArg(ll), "1", tr.X([]byte(z))})
+			w.Hist("netns-zone-" + zc)
+			w.Tag("netns-zone-" + zc)
+		}
+		for idx := 0; idx <= 45; idx++ {
+			exec("i2z", []string{tr.I(idx)})
+			exec("rts", []string{[]string{"tcp", "udp"}[idx%2], "sa6", "443", tr.I(idx), tr.X(ll)})
+		}
+		w.End()
+		newCase("ns", "netns-random")
+		exec("netns", []string{"digit-leading-interface-names"})
+		for k := 0; k < 400*mult; k++ {
+			ip, _ := randIP(r)
+			exec("rt", []string{kindOf(r), ipArg(ip), tr.I(randPort(r)), tr.X([]byte(pickZone(r, zones)))})
+			w.Hist("netns-random")
+		}
+		// listen side inside the namespace: zone names resolved by InterfaceByName only
+		for _, i := range ifaces {
+			exec("lsa", []string{"0", tr.X(ll), "8080", tr.X([]byte(i.Name))})
+		}
+		w.End()
+	})
+}
+
+// withNetns runs f on a goroutine whose OS thread lives in a fresh network namespace populated
+// with digit-named interfaces; `ifaces` is that namespace's table while f runs.  Returns false
+// (and runs nothing) when the namespace cannot be set up.
+func withNetns(f func()) (ran bool) {
+	done := make(chan struct{})
+	saved := ifaces
+	go func() {
+		defer close(done)
+		runtime.LockOSThread() // deliberately no UnlockOSThread: the thread dies with this goroutine
+		ipTool, err := exec_LookPath("ip")
+		if err != nil {
+			w.Hist("netns-skipped-no-ip-tool")
+			return
+		}
+		if err := unix.Unshare(unix.CLONE_NEWNET); err != nil {
+			w.Hist("netns-skipped-unshare-" + err.Error())
+			return
+		}
+		run := func(args ...string) bool { return exec_Command(ipTool, args...) == nil }
+		run("link", "set", "lo", "up")
+		created := 0
+		for _, spec := range [][]string{
+			{"6to4"}, {"7"}, {"12ab"}, {"5", "index", "5"}, {"3"}, {"007"}, {"16777216"}, {"0"}, {"6in4-wan"}, {"9x"}, {"br-verif"}, {"40", "index", "40"},
+		} {
+			args := append([]string{"link", "add", "name", spec[0]}, spec[1:]...)
+			if run(append(args, "type", "bridge")...) || run(append(args, "type", "dummy")...) {
+				created++
+			}
+		}
+		ifs, err := net.Interfaces()
+		if err != nil || created == 0 {
+			w.Hist("netns-skipped-no-interfaces")
+			return
+		}
+		ifaces = ifs
+		ran = true
+		f()
+	}()
+	<-done
+	ifaces = saved
+	return
+}
+
+func exec_LookPath(name string) (string, error) { return osexec.LookPath(name) }
+
+func exec_Command(name string, args ...string) error { return osexec.Command(name, args...).Run() }
 
 func randPath(r *tr.Rand) []byte {
 	n := r.Pick([]int{0, 1, 2, 5, 17, 64, 106, 107, 108, 200})
@@ -1145,18 +1304,29 @@ func randPath(r *tr.Rand) []byte {
 
 func replay(path string) {
 	for _, c := range tr.ReadCases(path) {
-		kept = nil
-		w.Case(c.ID, "sockaddr")
-		w.Tag("replay")
-		for _, i := range ifaces {
-			w.Op(tr.L("if", tr.X([]byte(i.Name)), tr.I(i.Index)))
-		}
-		for _, op := range c.Ops {
-			if p, msg := tr.Guard(func() { exec(op.Name, op.Args) }); p {
-				w.Fail("replay", "driver-panic op="+op.Name, msg)
+		c := c
+		body := func() {
+			kept = nil
+			w.Case(c.ID, "sockaddr")
+			w.Tag("replay")
+			for _, i := range ifaces {
+				w.Op(tr.L("if", tr.X([]byte(i.Name)), tr.I(i.Index)))
 			}
+			for _, op := range c.Ops {
+				if p, msg := tr.Guard(func() { exec(op.Name, op.Args) }); p {
+					w.Fail("replay", "driver-panic op="+op.Name, msg)
+				}
+			}
+			w.End()
 		}
-		w.End()
+		inNS := false
+		for _, op := range c.Ops {
+			inNS = inNS || op.Name == "netns"
+		}
+		// a case recorded inside the private network namespace is replayed inside one
+		if !inNS || !withNetns(body) {
+			body()
+		}
 	}
 }
 
